@@ -783,7 +783,9 @@ class Parser:
 
 def lean_ident(n):
     return {'end': 'end_', 'at': 'at_', 'from': 'from_', 'then': 'then_', 'do': 'do_', 'fun': 'fun_', 'show': 'show_',
-            'have': 'have_', 'type': 'type_', 'open': 'open_', 'in': 'in_'}.get(n, n)
+            'have': 'have_', 'type': 'type_', 'open': 'open_', 'in': 'in_', 'prefix': 'prefix_', 'infix': 'infix_',
+            'postfix': 'postfix_', 'notation': 'notation_', 'macro': 'macro_', 'syntax': 'syntax_', 'instance': 'instance_',
+            'theorem': 'theorem_', 'def': 'def_', 'where': 'where_', 'with': 'with_', 'by': 'by_', 'from_': 'from__'}.get(n, n)
 
 
 class Emitter:
@@ -1071,6 +1073,12 @@ class Emitter:
             if v < 0:
                 v += 2 ** self.w(ty)           # two's complement at the scrutinee's width
             conds.append('(%s == %d)' % (term, v))
+            return
+        if pat[0] == 'mstr':
+            body = pat[1][1:-1]
+            if '\\' in body:
+                raise TranslateError('escape in a string pattern')
+            conds.append('(%s == [%s])' % (term, ', '.join(str(ord(ch)) for ch in body)))
             return
         if pat[0] == 'mrange':
             conds.append('(decide (%d ≤ %s) && decide (%s ≤ %d))' % (pat[1], term, term, pat[2]))
@@ -1611,6 +1619,16 @@ class Emitter:
             # exact on integer arguments — trusted, as in the hand model)
             sn, _ = self.expr(r0[1], env, 'usize')
             return '(Ruint.Float.exp2Int %s %s)' % (FFMT[self.ty(r0[2])], sn), self.ty(r0[2])
+        if name == 'is_char_boundary' and len(args) == 1:
+            sr0, tr0 = self.expr(recv, env, None)
+            sk, _ = self.expr(args[0], env, 'usize')
+            if tr0 == 'slice':
+                return '(Rs.isCharBoundary %s %s)' % (sr0, sk), 'bool'
+        if name == 'split_at' and len(args) == 1 and getattr(self, 'str_params', None) is not None:
+            sr0, tr0 = self.expr(recv, env, None)
+            sk, _ = self.expr(args[0], env, 'usize')
+            if tr0 == 'slice':
+                return '(Rs.splitAtByte %s %s)' % (sr0, sk), ('tuple', ['slice', 'slice'])
         if name == 'ok_or_else' and len(args) == 1 and args[0][0] == 'closure' and not args[0][1]:
             # `opt.ok_or_else(|| e)`: `Some(v)` is `Ok(v)`, `None` is `Err(e)`
             so, to = self.expr(recv, env, None)
@@ -3065,7 +3083,8 @@ class Emitter:
                         out.append(('while', ('bin', '<', pv, ('mcall', seq, 'len', [])), ('block', body)))
                         continue
                 if st[0] == 'let' and st[1][0] == 'ptuple' and len(st[1][1]) == 2 and all(q[0] == 'pid' for q in st[1][1]) \
-                        and isinstance(st[3], tuple) and st[3][0] == 'mcall' and st[3][2] == 'split_at' and len(st[3][3]) == 1:
+                        and isinstance(st[3], tuple) and st[3][0] == 'mcall' and st[3][2] == 'split_at' and len(st[3][3]) == 1 \
+                        and getattr(self, 'str_params', None) is None:        # (a `str` is split at a BYTE offset: see `mcall`)
                     # `let (head, tail) = xs.split_at(n);` (shared borrow): the two halves
                     xs_, n_ = ex(st[3][1]), ex(st[3][3][0])
                     out.append(('let', st[1][1][0], None, ('index', xs_, ('rangeto', n_))))
@@ -3352,6 +3371,25 @@ def errD {ε α : Type} (d : ε) : Except ε α → ε
 end Rs
 '''
 
+PRELUDE_STR = '''/-! `str` operations on the list of a string's code points (hand-written, fixed). -/
+namespace Rs
+/-- number of bytes of the UTF-8 encoding of a code point -/
+def utf8Size (c : Nat) : Nat := if c < 0x80 then 1 else if c < 0x800 then 2 else if c < 0x10000 then 3 else 4
+/-- `str::is_char_boundary(k)`: byte offset `k` is the start of a character or the end of the string -/
+def isCharBoundary : List Nat → Nat → Bool
+  | _, 0 => true
+  | [], _ + 1 => false
+  | c :: cs, k + 1 => if k + 1 < utf8Size c then false else isCharBoundary cs (k + 1 - utf8Size c)
+/-- `str::split_at(k)` at a character boundary: the characters before byte `k`, and the rest -/
+def splitAtByte : List Nat → Nat → List Nat × List Nat
+  | cs, 0 => ([], cs)
+  | [], _ + 1 => ([], [])
+  | c :: cs, k + 1 =>
+    if k + 1 < utf8Size c then ([], c :: cs)
+    else let p := splitAtByte cs (k + 1 - utf8Size c); (c :: p.1, p.2)
+end Rs
+'''
+
 PRELUDE_BYTES = '''import Ruint.Gen.Prelude
 /-! Byte-level word reads used by the generated byte-slice decoders (hand-written, fixed). -/
 namespace Rs
@@ -3401,6 +3439,7 @@ def translate(items, namespace='Ruint.Gen', imports=('Ruint.Gen.Prelude',), fns=
             em = Emitter(fns, it.get('self_ty'), structs=it.get('structs'), gconsts=it.get('gconsts'), self_name=it.get('self_name'))
             em.uint_mode = it.get('uint') or False     # True: limb lists; 'value': a Uint is its numeric value
             em.file_text = src
+            em.str_params = it.get('str_params')
             em.externs = it.get('externs', {})
             em.call_alias = it.get('call_alias', {})
             em.panic_externs = it.get('panic_externs', ())
@@ -3900,7 +3939,11 @@ def str_items(repo):
     patterns, `u64::from(c)`, the `err` latch, `?` with `From<BaseConvertError> for ParseError`, `err.map_or(Ok(value), Err)`"""
     return [{'file': repo + '/src/string.rs', 'fn': 'from_str_radix', 'lean': 'uint_from_str_radix', 'key': 'Uint::from_str_radix',
              'uint': True, 'self_ty': 'uint', 'group': 'str', 'externs': UINT_EXTERNS,
-             'enum_files': [repo + '/src/base_convert.rs']}]
+             'enum_files': [repo + '/src/base_convert.rs']},
+            # `FromStr::from_str`: the prefix sniffing (`is_char_boundary(2)`, `split_at(2)`, the match on "0x" | "0X" | …)
+            {'file': repo + '/src/string.rs', 'fn': 'from_str', 'lean': 'uint_from_str', 'key': 'Uint::from_str',
+             'after': 'FromStr for Uint<BITS, LIMBS>', 'uint': True, 'self_ty': 'uint', 'group': 'str', 'externs': UINT_EXTERNS,
+             'enum_files': [repo + '/src/base_convert.rs'], 'str_params': True}]
 
 
 def macro_items(repo):
@@ -3982,13 +4025,13 @@ GROUPS = [('core', 'Words', ('Ruint.Gen.Prelude',)),
           ('facade', 'WordsFacade', ('Ruint.Gen.WordsUint', 'Ruint.Gen.WordsUintDiv', 'Ruint.Gen.WordsUintMod', 'Ruint.Gen.WordsIntShift',
                                      'Ruint.Gen.WordsBytes', 'Ruint.Gen.WordsConv', 'Ruint.Gen.WordsConv2')),
           ('der', 'WordsDer', ('Ruint.Gen.WordsBytes',)),
-          ('str', 'WordsStr', ('Ruint.Gen.WordsRadix', 'Ruint.Gen.PreludeRes'))]
+          ('str', 'WordsStr', ('Ruint.Gen.WordsRadix', 'Ruint.Gen.PreludeRes', 'Ruint.Gen.PreludeStr'))]
 
 
 def translate_all(repo):
     """-> {module name: lean source}, errors"""
     fns = {}
-    files = {'Prelude': PRELUDE, 'PreludeBytes': PRELUDE_BYTES, 'PreludeRes': PRELUDE_RES}
+    files = {'Prelude': PRELUDE, 'PreludeBytes': PRELUDE_BYTES, 'PreludeRes': PRELUDE_RES, 'PreludeStr': PRELUDE_STR}
     errors = []
     items = default_items(repo)
     items += uint_items(repo)
